@@ -1,12 +1,12 @@
 SPECIFICATION MCSpec
 CONSTANTS
-  Kinds = {"honest", "bad"}
+  Kinds = {"honest", "poison_spent"}
   BatchSize = 2
-  ValidateFirst = FALSE
+  ValidateFirst = TRUE
   RootCheck = TRUE
   ResetClearsBitmap = TRUE
   MaxAdds = 100000
   MaxBad = 100000
   MaxDup = 100000
 VIEW View
-INVARIANTS NeverFinaliseWrongRoots
+INVARIANTS TypeOK NeverFinaliseWrongRoots GoodRetryHasRoots
